@@ -6,3 +6,9 @@
 pub mod common;
 #[cfg(kani)]
 pub mod fixed;
+#[cfg(kani)]
+pub mod k;
+#[cfg(kani)]
+pub mod s9;
+#[cfg(kani)]
+pub mod d9;
